@@ -153,6 +153,13 @@ def newLeafMap : LeafMap := []
 /-- `m[k] = leaf` -/
 def leafMapSet (m : LeafMap) (k : String) (v : Leaf) : LeafMap := AMap.insert m k v
 
+/-! ## Go maps `map[string]dom.ContainerBuilder` (the layers of an overlay document) -/
+
+/-- `map[string]dom.ContainerBuilder`: an association list (any order; only looked up) -/
+abbrev ContMap := List (String × Container)
+/-- `m[k]` (nil = none) -/
+def contMapGet (m : ContMap) (k : String) : Option Container := AMap.get? m k
+
 /-! ## builders (functional updates) -/
 
 /-- `&listBuilderImpl{}`; `dom.ListNode()` -/
